@@ -544,7 +544,7 @@ def unmap_iter_collect_general(f):
     P is `x` (binds `&VEC[i]`) or `&x` (binds `VEC[i]`, a copy)."""
     n = 0
     while True:
-        m = re.search(r'([\w.]+)\s*\.iter\(\)\s*(\.enumerate\(\)\s*)?\.map(\()', f.body)
+        m = re.search(r'(\w+(?:\s*\.\s*\w+)*)\s*\.\s*iter\(\)\s*(\.enumerate\(\)\s*)?\.map(\()', f.body)
         if not m:
             break
         try:
@@ -554,7 +554,7 @@ def unmap_iter_collect_general(f):
         m2 = re.match(_COLLECT, f.body[close + 1:])
         if not m2:
             break
-        vec, enum = m.group(1), bool(m.group(2))
+        vec, enum = ''.join(m.group(1).split()), bool(m.group(2))
         k = f'm{n}_'
         if enum:
             pm = re.match(r'\(\s*(\w+)\s*,\s*(&?)\s*(\w+)\s*\)$', params)
@@ -755,6 +755,17 @@ def _is_iter_expr(expr):
 class _Gen:
     def __init__(self):
         self.n = 0
+        self.used = set()
+
+    def loop_var(self, src):
+        """loop counter named after the iterated source (stable when pipeline segments are reordered)"""
+        base = 'i_' + re.sub(r'\W+', '_', ''.join(src.split())).strip('_')[-48:]
+        name, k = base, 1
+        while name in self.used:
+            k += 1
+            name = f'{base}{k}'
+        self.used.add(name)
+        return name
 
     def fresh(self, p):
         self.n += 1
@@ -805,7 +816,7 @@ def _compile_seg(expr, sink, g):
     if 'chain' in [c[0] for c in calls]:
         return _compile_iter(expr, sink, g, None)
     src, adaptors = calls[0][0], calls[1:]
-    i = g.fresh('i')
+    i = g.loop_var(head)
 
     def consume(elem, kind, rest):
         # elem: expression; kind: 'ref' (a &T) or 'val'
@@ -827,6 +838,8 @@ def _compile_seg(expr, sink, g):
             return '{ ' + b + ' ' + _compile_seg(body, inner_sink, g) + ' }'
         raise ExtractError(f'adaptor .{name}(..) is outside the pipeline compiler')
 
+    if src == 'into_iter' and not adaptors:
+        return sink(head, 'vec')        # an owned vector consumed as a whole
     if src == 'iter':
         return f'for {i} in 0..{head}.len() {{ let e_{i} = &{head}[{i}]; {consume(f"e_{i}", "ref", adaptors)} }}'
     w = g.fresh('w')
@@ -866,7 +879,7 @@ def uniter_collect(f):
         def sink(elem, kind, v=v):
             if kind == 'vec':
                 w = g.fresh('a')
-                return f'{{ let mut {w} = {elem}; {v}.append(&mut {w}); }}'
+                return f'let mut {w} = {elem}; {v}.append(&mut {w});'
             return f'{v}.push({elem});'
         code = _compile_iter(recv.strip(), sink, g, None)
         lead = recv[:len(recv) - len(recv.lstrip())]
